@@ -227,3 +227,25 @@ pub proof fn lemma_abs_result_is_absolute_clean(cwd: Comps, p: Comps)
 //@ obligation lemma_abs_clean_is_abs_form props=C05
 //@ obligation lemma_walk_abs_form props=C05
 //@ obligation lemma_abs_result_is_absolute_clean props=C05
+
+// (iii) idempotence: an absolute clean path that contains nothing to expand and no protocol prefix resolves to itself.
+// The two hypotheses are exactly what expand / trim_protocol do on such a path when no name contains `$`, `~` at the start or `//`
+// (abs(abs(p)) == abs(p) can fail when the VALUE of an expanded variable itself contains `$`: see DESIGN.md 12.4).
+pub proof fn lemma_abs_form_is_clean_fixpoint(r: Comps)
+    requires abs_form(r)
+    ensures spec_clean(r) == r
+{
+    let e = Seq::<Component>::empty();
+    assert(e + r =~= r);
+    assert(stack_ok(r)) by { assert forall|i: int| 0 <= i < r.len() implies (r[i] != Component::CurDir && (i > 0 ==> r[i] != Component::RootDir)) by { if i > 0 { assert(r[i] is Normal); } } }
+    assert(clean_form(r)) by { assert forall|i: int| 0 < i < r.len() && #[trigger] r[i] == Component::ParentDir implies r[i - 1] == Component::ParentDir by { assert(r[i] is Normal); } }
+    lemma_fold_fix(e, r);
+}
+pub proof fn lemma_abs_idempotent(cwd: Comps, r: Comps)
+    requires abs_form(r), spec_expand(r) == Some(r), spec_trim_protocol(r) == r
+    ensures spec_abs(cwd, r) == Some(r)                                   //@ clause abs.idempotent_on_paths_without_expansion_triggers [C05]
+{
+    lemma_abs_form_is_clean_fixpoint(r);
+}
+//@ obligation lemma_abs_form_is_clean_fixpoint props=C05
+//@ obligation lemma_abs_idempotent props=C05
